@@ -121,8 +121,20 @@ def r3(ctx):
         for sbb, te, fe, o in guards_on(p, lambda o: o["k"] == "call" and re.search(r"FnMut>::call_mut$|FnMut::call_mut$", o["t"]["f"])):
             fe_all += fe
         ok = bool(rets) and bool(fe_all) and all(p.dominated_by_any(x, edges=fe_all) for x in rets)
+        # exhaustion: None only after a full cycle, i.e. when the cursor is back at the value it had on entry
+        CUR, RNG = "field:turmoil_net::kernel::socket::PortAllocator::cursor", "field:turmoil_net::kernel::socket::PortAllocator::range"
+        nones = [bb for bb, i, s in p.all_stmts() if s["r"]["k"] == "agg" and s["r"].get("variant") == "None" and s["p"]["l"] == 0]
+        okx = False
+        for sbb, te, fe, o in guards_on(p, lambda o: o["k"] == "bin" and o["op"] == "Eq"):
+            if not (nones and te and all(p.dominated_by_any(x, edges=te) for x in nones)):
+                continue
+            a0 = Slicer(ctx.w).atoms(p, o["a"])
+            a1 = Slicer(ctx.w).atoms(p, o["b"])
+            okx = CUR in a0 and CUR in a1 and RNG not in a0 and RNG not in a1
+        ctx.inst(R, "allocate:exhaustion-after-full-cycle", okx, p.span, "None is returned only when the cursor is back at its entry value (every port was examined)" if okx else
+                 "the exhaustion test does not compare the cursor with its value on entry: ports below the cursor are never examined and a free port is reported as AddrInUse")
         ctx.inst(R, "allocate:free-only", ok, p.span, "a port is returned only when in_use(p) is false" if ok else "PortAllocator::allocate can return a port without the in_use(p) == false test")
-    ctx.floor(R, 2)
+    ctx.floor(R, 3)
 
 
 def r4(ctx):
